@@ -154,6 +154,15 @@ func (w *World) doExportImport(in Intent) {
 		for _, pi := range ps {
 			p := byte(pi)
 			w.St.Check("C15:store-preserved")
+			if store == "mhub2" && (p == mhub2types.ValidatorExternalAddressKey || p == mhub2types.OrchestratorValidatorAddressKey || p == mhub2types.ExternalOrchestratorAddressKey) {
+				// the delegate-key registry: which KIND of entry is lost matters (a current registration of a
+				// listed chain is not the same defect as a superseded index entry or a chain that is not listed)
+				for _, cls := range classifyRegistryDiff(orig, p, a[p], b[p]) {
+					same = false
+					w.Note("C15", "store-preserved", fmt.Sprintf("%s:0x%02x:%s:%s", store, p, names[p], cls.class), fmt.Sprintf("%s store, prefix 0x%02x (%s), %s entries: %s", store, p, names[p], cls.class, cls.detail))
+				}
+				continue
+			}
 			if d := diffKV(a[p], b[p]); d != "" {
 				same = false
 				name := names[p]
@@ -245,4 +254,91 @@ func isZeroEntry(store string, p byte, v []byte) bool {
 		return h.Unmarshal(v) == nil && h.ExternalHeight == 0
 	}
 	return false
+}
+
+type registryDiff struct{ class, detail string }
+
+// classifyRegistryDiff sorts the differences of one delegate-key index into classes:
+// foreign-chain (the chain is not one of the bridge's chains), superseded (an index entry that no current
+// registration points to), current (part of a validator's current registration), changed, appears.
+func classifyRegistryDiff(orig *hub.Node, p byte, a, b kvSet) []registryDiff {
+	st := ReadStateOf(orig)
+	type reg struct{ valExt, orchVal, extOrch map[string]string }
+	regs := map[string]reg{}
+	for _, ch := range Chains {
+		ve, ov, eo := st.DelegateIndexes(ch)
+		regs[ch] = reg{ve, ov, eo}
+	}
+	chainOf := func(k string) (string, string) {
+		for _, ch := range Chains {
+			if len(k) == 1+len(ch)+20 && k[1:1+len(ch)] == ch {
+				return ch, k[1+len(ch):]
+			}
+		}
+		return "", ""
+	}
+	found := map[string][]string{}
+	add := func(class, detail string) { found[class] = append(found[class], detail) }
+	var keys []string
+	for k := range a {
+		keys = append(keys, k)
+	}
+	for k := range b {
+		if _, ok := a[k]; !ok {
+			keys = append(keys, k)
+		}
+	}
+	sort.Strings(keys)
+	for _, k := range keys {
+		va, oka := a[k]
+		vb, okb := b[k]
+		switch {
+		case oka && okb && va == vb:
+			continue
+		case oka && okb:
+			add("changed", fmt.Sprintf("value of key %x changes: %x -> %x", k, va, vb))
+		case !oka:
+			add("appears", fmt.Sprintf("key %x appears only after import", k))
+		default:
+			ch, rest := chainOf(k)
+			if ch == "" {
+				add("foreign-chain", fmt.Sprintf("key %x is lost", k))
+				continue
+			}
+			r := regs[ch]
+			extIsCurrent := func(e string) bool {
+				for _, x := range r.valExt {
+					if x == e {
+						return true
+					}
+				}
+				return false
+			}
+			current := false
+			switch p {
+			case mhub2types.ValidatorExternalAddressKey:
+				current = true
+			case mhub2types.ExternalOrchestratorAddressKey:
+				current = extIsCurrent(rest)
+			case mhub2types.OrchestratorValidatorAddressKey:
+				for e, o := range r.extOrch {
+					if o == rest && extIsCurrent(e) {
+						current = true
+					}
+				}
+			}
+			if current {
+				add("current", fmt.Sprintf("key %x (%s) is lost", k, ch))
+			} else {
+				add("superseded", fmt.Sprintf("key %x (%s) is lost", k, ch))
+			}
+		}
+	}
+	var out []registryDiff
+	for _, c := range []string{"current", "changed", "appears", "superseded", "foreign-chain"} {
+		if d := found[c]; len(d) > 0 {
+			out = append(out, registryDiff{c, fmt.Sprintf("%s (%d such entries)", d[0], len(d))})
+		}
+	}
+	return out
 }
